@@ -60,6 +60,8 @@ def family():
         yield label, prog, dict(kind="markers-deep")
     for label, prog, meta in F.fam_clones_static_and_reared():
         yield label, prog, dict(kind="clones")
+    for label, prog, meta in F.fam_clone_guards():
+        yield label, prog, dict(kind="clones")
     if not q:
         for label, prog, meta in F.fam_clocks_deep():
             yield label, prog, dict(kind="single", horizon=40)
